@@ -384,25 +384,42 @@ def real_mono_exon(kw):
     return vlib.canon(fake.transcript_model_storage[0].exon_blocks)
 
 
-def real_merge_order(names, scratch, contents=None):
-    """run the real merge_files on per-chromosome files; returns the merged ints"""
+def real_merge_order(names, scratch, contents=None, header_lines=0):
+    """run the real merge_files on per-chromosome files; returns the merged records (ints, or the text lines when the
+    contents are text records).  `header_lines` is what the caller of merge_files passes since the repair
+    fix_merge_header (0 for both GTF merges); a tree whose merge_files has no such parameter finds the header lines by
+    content and is called without it."""
+    import inspect
     TP, GI, C, GB, FU, IDP = _mods()
     d = tempfile.mkdtemp(dir=scratch)
+    text = bool(contents) and any(isinstance(v, str) for l in contents for v in l)
     try:
         base = os.path.join(d, "S.out.txt")
         for i, n in enumerate(names):
             with open(C.rreplace(base, "S", "S_" + n), "w") as f:
                 for v in (contents[i] if contents else [i]):
-                    f.write("%d\n" % v)
+                    f.write("%s\n" % v if text else "%d\n" % v)
+        kw = {"header_lines": header_lines} if "header_lines" in inspect.signature(FU.merge_files).parameters else {}
         with open(base, "w") as out:
             try:
-                FU.merge_files(base, "S", names, out, copy_header=False)
+                FU.merge_files(base, "S", names, out, copy_header=False, **kw)
             except TypeError:
                 return {"error": "error", "exc": "TypeError"}
         with open(base) as f:
+            if text:
+                return [l.rstrip("\n") for l in f]
             return [int(x) for x in f.read().split()]
     finally:
         shutil.rmtree(d, ignore_errors=True)
+
+
+def gtf_like_records(rng, name, header_lines=0):
+    """the lines of one per-chromosome file as the printers write them: `header_lines` header lines, then records that
+    start with the contig name (GTF, BED) - or with a read id (read_assignments.tsv)"""
+    hdr = ["#header %d" % i for i in range(header_lines)]
+    first = name if rng.random() < 0.8 else rng.choice(["#read_1", "read_2"])
+    return hdr + ["%s\tIsoQuant\t%s\t%d" % (first if i == 0 else name, rng.choice(["gene", "transcript", "exon"]), rng.randint(1, 999))
+                  for i in range(rng.randint(0, 4))]
 
 
 # ------------------------------------------------------------------------------------------------
@@ -554,6 +571,29 @@ def correspondence(ctx):
                 ctx.disagree("merge_files", {"names": kw["_names"], "contents": kw["_contents"]}, mo, io)
             elif not vlib.is_err(mo) and len(kw["_names"]) > 1:
                 ctx.mark_nontrivial(["merge_files", kw["_names"], kw["_contents"]])
+        # ---- text records (a contig / read name may start with '#'): merge_files with the number of header lines the
+        #      writer put (0: GTF, read-to-model; 1: BED; 3: read_assignments.tsv)
+        tcases = [{"names": ["#c1", "c2"], "header_lines": 0,
+                   "contents": [["#c1\tIsoQuant\tgene\t1", "#c1\tIsoQuant\ttranscript\t2", "#c1\tIsoQuant\texon\t3"],
+                                ["c2\tIsoQuant\tgene\t4"]]}]
+        for _ in range(150 if quick else 1500):
+            names = G.chr_names(rng)
+            k = rng.choice([0, 0, 0, 1, 3])
+            tcases.append({"names": names, "header_lines": k, "contents": [gtf_like_records(rng, n, k) for n in names]})
+        outs = ctx.driver.run([vlib.req("C03.merge_lines", header_lines=c["header_lines"],
+                                        files=[["/x/S_%s.out.txt" % n, l] for n, l in zip(c["names"], c["contents"])])
+                               for c in tcases])
+        for c, mo in zip(tcases, outs):
+            ctx.evaluations += 1
+            ctx.count("op:merge_lines")
+            if any(l and l[c["header_lines"]:][:1] and l[c["header_lines"]].startswith("#") for l in c["contents"]):
+                ctx.count("merge_lines:hash_led_first_record")
+            io = real_merge_order(c["names"], scratch, c["contents"], c["header_lines"])
+            ctx.traces_validated += 1
+            if not vlib.same(mo, io):
+                ctx.disagree("merge_lines", c, mo, io)
+            elif not vlib.is_err(mo) and len(c["names"]) > 1:
+                ctx.mark_nontrivial(["merge_lines", c["names"]])
         # ---- merge order observed through the real pipeline (chromosome blocks of the merged GTFs)
         names = rng.sample(["chr1", "chr2", "chr10", "chrX", "2L", "scaffold_3", "chrUn_KI270302v1", "Chr3"], 4)
         spec = {"gen": "pipeline_dataset", "seed": rng.randrange(10 ** 6), "n_chroms": 4, "split_locus": False, "chrom_names": names}
@@ -1049,7 +1089,7 @@ def oracle(ctx, disagreements, broken):
                 r = oracle_fl_exons(d["input"])
                 if r:
                     _fail(ctx, "novel_exons_malformed", {"level": "fl_exons", "case": d["input"]}, r)
-            if d["op"] == "merge_files":
+            if d["op"] in ("merge_files", "merge_lines"):
                 r = oracle_merge(d["input"], scratch)
                 if r:
                     _fail(ctx, "merge_loses_records", {"level": "merge", "case": d["input"]}, r)
@@ -1098,6 +1138,14 @@ def oracle(ctx, disagreements, broken):
         for _ in range(60 if quick else 600):
             names = G.chr_names(rng)
             c = {"names": names, "contents": [[rng.randint(0, 99) for _ in range(rng.randint(0, 3))] for _ in names]}
+            r = oracle_merge(c, scratch)
+            if r:
+                _fail(ctx, "merge_loses_records", {"level": "merge", "case": c}, r)
+        # text records: per-chromosome GTF-like files of contigs whose name may start with '#'
+        for _ in range(60 if quick else 600):
+            names = G.chr_names(rng)
+            k = rng.choice([0, 0, 1, 3])
+            c = {"names": names, "header_lines": k, "contents": [gtf_like_records(rng, n, k) for n in names]}
             r = oracle_merge(c, scratch)
             if r:
                 _fail(ctx, "merge_loses_records", {"level": "merge", "case": c}, r)
@@ -1280,12 +1328,15 @@ def oracle_joiner(c):
 
 
 def oracle_merge(c, scratch):
-    got = real_merge_order(c["names"], scratch, c["contents"])
+    k = c.get("header_lines", 0)
+    got = real_merge_order(c["names"], scratch, c["contents"], k)
     if vlib.is_err(got):
         return "merge_files raised %s" % got.get("exc")
-    exp = sorted(v for l in c["contents"] for v in l)
+    # every RECORD of every part (the lines after the k lines its writer put first), exactly as often as in the parts
+    exp = sorted(v for l in c["contents"] for v in l[k:])
     if sorted(got) != exp:
-        return "merged multiset differs"
+        lost = [v for v in exp if v not in got]
+        return "merged multiset differs" + (": lost %s" % lost[:3] if lost else "")
     return None
 
 
